@@ -169,6 +169,11 @@ def _bounds_ok(t, x):
         return False
     if hi["b"] == "lt" and not x < hi["v"]:
         return False
+    # one side carrying both keywords (Semantics!GeGt / LeLt): both must hold
+    if lo["b"] == "gegt" and not (x >= lo["v"] and x > lo["x"]):
+        return False
+    if hi["b"] == "lelt" and not (x <= hi["v"] and x < hi["x"]):
+        return False
     # bounds given in tenths (Semantics!Ge10 ...): fractional bounds, compared exactly on integers
     x10 = x * 10
     if lo["b"] == "ge10" and not x10 >= lo["v"]:
@@ -485,6 +490,18 @@ def _num_bounds_js(t, openapi):
             return b["v"] / 10 if b["b"].endswith("10") else b["v"]
         t = dict(t, lo={"b": lo["b"].replace("10", ""), "v": val(lo)}, hi={"b": hi["b"].replace("10", ""), "v": val(hi)})
         lo, hi = t["lo"], t["hi"]
+    # both keywords on one side (Semantics!GeGt / LeLt). draft-07: both are numbers and both are spelled. OpenAPI 3.0 has ONE number
+    # per side (exclusiveMinimum is a flag on `minimum`): the pair is spelled as the single bound it amounts to
+    if lo["b"] == "gegt":
+        if not openapi:
+            out["minimum"], out["exclusiveMinimum"] = lo["v"], lo["x"]
+        else:
+            lo = {"b": "gt", "v": lo["x"]} if lo["x"] >= lo["v"] else {"b": "ge", "v": lo["v"]}
+    if hi["b"] == "lelt":
+        if not openapi:
+            out["maximum"], out["exclusiveMaximum"] = hi["v"], hi["x"]
+        else:
+            hi = {"b": "lt", "v": hi["x"]} if hi["x"] <= hi["v"] else {"b": "le", "v": hi["v"]}
     if lo["b"] == "ge":
         out["minimum"] = lo["v"]
     elif lo["b"] == "gt":
@@ -687,10 +704,11 @@ class _Cue:
             op = {"ge": ">=", "gt": ">", "le": "<=", "lt": "<"}
             if lo["b"].endswith("10") or hi["b"].endswith("10"):
                 raise NotExpressible("cue: fractional bound on a typed number (cog's CUE input parses integer bounds with ParseInt)")
-            if lo["b"] != "none":
-                parts.append("%s%d" % (op[lo["b"]], lo["v"]))
-            if hi["b"] != "none":
-                parts.append("%s%d" % (op[hi["b"]], hi["v"]))
+            for b, incl, excl in ((lo, ">=", ">"), (hi, "<=", "<")):
+                if b["b"] in ("gegt", "lelt"):       # both keywords on one side: both are spelled
+                    parts += ["%s%d" % (incl, b["v"]), "%s%d" % (excl, b["x"])]
+                elif b["b"] != "none":
+                    parts.append("%s%d" % (op[b["b"]], b["v"]))
             return " & ".join(parts)
         if k == "str":
             parts = ["string"]
@@ -741,9 +759,13 @@ class _Cue:
                 if f["def"]["j"] != "none":
                     # a union of scalars keeps the idiomatic flat spelling `string | int64 | *"x"` (same CUE value)
                     base = ft if (f["t"]["k"] == "union" and not f["null"]) else self.wrap(ft)
+                    consts = [b for b in f["t"]["ts"] if b["k"] == "const"] if f["t"]["k"] == "union" else []
                     if f["t"]["k"] == "ref" and not f["null"] and getattr(self, "defs", {}).get(f["t"]["name"], {}).get("k") == "enum":
                         # a named enum keeps its name only in this (equivalent) spelling: `#E | *"b"` is read as a plain string
                         ft = "%s & (*%s | string)" % (ft, self.lit(jv_to_py(f["def"])))
+                    elif consts and not f["null"] and any(b["v"] == f["def"] for b in consts):
+                        # a disjunction of constants marks the default in place: `1 | 2 | *3`
+                        ft = " | ".join(("*" if b["k"] == "const" and b["v"] == f["def"] else "") + self.wrap(self.ty(b)) for b in f["t"]["ts"])
                     else:
                         ft = "%s | *%s" % (base, self.lit(jv_to_py(f["def"])))
                 # names that are not plain identifiers (or would be hidden `_x` / definition `#x` fields) are quoted
